@@ -97,6 +97,10 @@ type C08Scenario struct {
 	Outputs   []string `json:"outputs"`   // hex locking scripts
 	Inputs    []string `json:"inputs"`    // hex unlocking scripts
 	Action    string   `json:"action"`    // "", formation, creation, transfer: appended as an extra output
+	// ActionForm: 0 the serializer's form (OP_FALSE OP_RETURN ...) as the last output; 1 the bare form
+	// (OP_RETURN ... without the leading OP_FALSE, which the protocol library also decodes); 2 the
+	// serializer's form as the first output
+	ActionForm int `json:"action_form,omitempty"`
 }
 
 func c08Run(sc *C08Scenario) (*nodeViolation, map[string]bool) {
@@ -184,9 +188,31 @@ func c08Run(sc *C08Scenario) (*nodeViolation, map[string]bool) {
 			a = &actions.Transfer{}
 		}
 		if script, err := protocol.Serialize(a, true); err == nil {
-			tx.AddTxOut(wire.NewTxOut(0, script))
+			carries := sc.Action == "formation" || sc.Action == "creation"
+			switch sc.ActionForm {
+			case 1:
+				if len(script) > 1 && script[0] == 0x00 {
+					script = script[1:]
+					flags["action-bare-op-return"] = true
+					// "carries an action" is what the protocol library decodes from the output
+					got, derr := protocol.Deserialize(script, true)
+					carries = false
+					if derr == nil {
+						switch got.(type) {
+						case *actions.ContractFormation, *actions.InstrumentCreation:
+							carries = true
+						}
+					}
+				}
+				tx.AddTxOut(wire.NewTxOut(0, script))
+			case 2:
+				tx.TxOut = append([]*wire.TxOut{wire.NewTxOut(0, script)}, tx.TxOut...)
+				flags["action-first-output"] = true
+			default:
+				tx.AddTxOut(wire.NewTxOut(0, script))
+			}
 			check(script)
-			if contractsOn && (sc.Action == "formation" || sc.Action == "creation") {
+			if contractsOn && carries {
 				want = true
 				flags["contract-match"] = true
 			}
@@ -338,10 +364,13 @@ func genC08(t *rapid.T) (*C08Scenario, map[string]bool) {
 	for i, n := 0, rapid.IntRange(0, 3).Draw(t, "nout"); i < n; i++ {
 		sc.Outputs = append(sc.Outputs, hex.EncodeToString(genC08Script(t, "out", gf)))
 	}
+	if sc.Action != "" {
+		sc.ActionForm = rapid.SampledFrom([]int{0, 0, 1, 2}).Draw(t, "actionform")
+	}
 	return sc, gf
 }
 
-const c08Rule = "transactions whose input/output scripts are built from a grammar of direct pushes, PUSHDATA1/2/4 (honest and lying lengths), non-push opcodes, small-integer opcodes and truncated tails, carrying subscribed values (20-byte and raw, raw lengths 33..66000 incl. the 75/255/520/65535 push-size boundaries), their HASH160s, near misses and random data; subscription histories of subscribe/unsubscribe in raw or hashed form with repeats; contract subscription on/off with formation/creation/other actions; oracle: independent push parser + multiset model; non-trivial = a script has a non-push opcode or malformed tail and a universe element; distinct by scenario hash"
+const c08Rule = "transactions whose input/output scripts are built from a grammar of direct pushes, PUSHDATA1/2/4 (honest and lying lengths), non-push opcodes, small-integer opcodes and truncated tails, carrying subscribed values (20-byte and raw, raw lengths 33..66000 incl. the 75/255/520/65535 push-size boundaries), their HASH160s, near misses and random data; subscription histories of subscribe/unsubscribe in raw or hashed form with repeats; contract subscription on/off with formation/creation/other actions in the serializer's form (last or first output) or in the bare OP_RETURN form the protocol library also decodes; oracle: independent push parser + multiset model; non-trivial = a script has a non-push opcode or malformed tail and a universe element; distinct by scenario hash"
 
 func TestC08Filter(t *testing.T) {
 	rep := verifkit.NewReport("C08", "TestC08Filter", c08Rule)
